@@ -144,7 +144,7 @@ func c02RecordMaps(c *Check) {
 					target = ix.X
 					if fv := fieldOf(info, target); fv != nil {
 						if _, isMap := fv.Type().Underlying().(*types.Map); isMap && typeIs(info.TypeOf(ast.Unparen(target).(*ast.SelectorExpr).X), modPath+"/"+queueRel, "QueueMetadata") {
-							written[fv.Name()] = s.Pos()
+							written[objName(fv)] = s.Pos()
 						}
 					}
 				}
@@ -153,7 +153,7 @@ func c02RecordMaps(c *Check) {
 			if ix, ok := ast.Unparen(s.X).(*ast.IndexExpr); ok {
 				if fv := fieldOf(info, ix.X); fv != nil {
 					if _, isMap := fv.Type().Underlying().(*types.Map); isMap {
-						written[fv.Name()] = s.Pos()
+						written[objName(fv)] = s.Pos()
 					}
 				}
 			}
@@ -190,7 +190,7 @@ func c02RecordMaps(c *Check) {
 			if !ok || be.Op != token.EQL || !isNilIdent(info, be.Y) {
 				return true
 			}
-			if fv := fieldOf(info, be.X); fv != nil && fv.Name() == name {
+			if fv := fieldOf(info, be.X); fv != nil && objName(fv) == name {
 				for _, s := range is.Body.List {
 					if nodeAssigns(s, func(l, rhs ast.Expr) bool {
 						fl := fieldOf(info, l)
@@ -641,7 +641,7 @@ func c02Abort(c *Check) {
 				if as, ok := pt.Node().(*ast.AssignStmt); ok {
 					for _, l := range as.Lhs {
 						if fv := fieldOf(rb.Info, l); fv != nil {
-							setBySuccess[fv.Name()] = true
+							setBySuccess[objName(fv)] = true
 						}
 					}
 				}
@@ -655,7 +655,7 @@ func c02Abort(c *Check) {
 				// edges on which a field that Body sets on success is nil → nothing was stored → skipping is fine
 				if be, ok := ast.Unparen(atom).(*ast.BinaryExpr); ok && (be.Op == token.NEQ || be.Op == token.EQL) {
 					for _, pair := range [][2]ast.Expr{{be.X, be.Y}, {be.Y, be.X}} {
-						if fv := fieldOf(ra.Info, pair[0]); fv != nil && setBySuccess[fv.Name()] && isNilIdent(ra.Info, pair[1]) {
+						if fv := fieldOf(ra.Info, pair[0]); fv != nil && setBySuccess[objName(fv)] && isNilIdent(ra.Info, pair[1]) {
 							return be.Op == token.EQL, true
 						}
 					}
